@@ -800,6 +800,24 @@ func genExprCase(r *kit.Rand, i int) []string {
 		return append(ops, tail...)
 	}
 	src := g.expr(1 + r.Intn(3))
+	if i%12 == 5 {
+		// damaged input: the parser must reject (or read something else) exactly as the model says
+		switch r.Intn(4) {
+		case 0:
+			src += kit.Pick(r, []string{")", "(", " +", " '", " \"", " /", ",", " 08", " 1.2.3", " !", " 9223372036854775808", " * *"})
+		case 1:
+			if len(src) > 1 {
+				k := r.Intn(len(src))
+				if src[k] < 0x80 && (k+1 >= len(src) || src[k+1] < 0x80) {
+					src = src[:k] + src[k+1:]
+				}
+			}
+		case 2:
+			src = kit.Pick(r, []string{"(", "f(", "-", "a +", "a OR", "f(a,,b)", "()", "f(,)"}) + " " + src
+		default:
+			src = "* " + kit.Pick(r, binOps) + " " + src
+		}
+	}
 	ops := []string{"parse " + kit.Esc(src)}
 	if i%2 == 1 {
 		ops = append(ops, "json")
